@@ -18,6 +18,8 @@ import (
 	basev1beta1 "cosmossdk.io/api/cosmos/base/v1beta1"
 
 	basketapi "github.com/regen-network/regen-ledger/api/v2/regen/ecocredit/basket/v1"
+	marketapi "github.com/regen-network/regen-ledger/api/v2/regen/ecocredit/marketplace/v1"
+	baseapi "github.com/regen-network/regen-ledger/api/v2/regen/ecocredit/v1"
 	"github.com/regen-network/regen-ledger/x/data/v3"
 	basetypes "github.com/regen-network/regen-ledger/x/ecocredit/v3/base/types/v1"
 	baskettypes "github.com/regen-network/regen-ledger/x/ecocredit/v3/basket/types/v1"
@@ -1792,6 +1794,59 @@ func (r *c17Run) singles() []*c17One {
 		},
 		expect: func(string) (string, bool, string) {
 			return fmt.Sprint(s.Allowlist != nil && s.Allowlist.Enabled), true, ""
+		}})
+
+	// the deprecated aggregate Params query: every part equals the stored singleton / table
+	kAD := func(b, d string, e uint32) string { return fmt.Sprintf("allowed-denom{%s display=%s exp=%d}", b, d, e) }
+	kParams := func(creators []string, on bool, classFee, basketFee string, denoms, chains []string) string {
+		return fmt.Sprintf("params{creators=%v allowlist=%v classFee=%s basketFee=%s denoms=%v chains=%v}",
+			sortedCopy(creators), on, classFee, basketFee, sortedCopy(denoms), sortedCopy(chains))
+	}
+	kCoins := func(cs sdk.Coins) string {
+		// the handler wraps the single stored coin; an unset fee may come back as an empty list or a zero coin
+		var parts []string
+		for i := range cs {
+			if k := kCoinG(&cs[i]); k != "no-fee" && !(cs[i].Amount.IsNil() || cs[i].Amount.IsZero()) {
+				parts = append(parts, k)
+			}
+		}
+		if len(parts) == 0 {
+			return "no-fee"
+		}
+		return strings.Join(parts, ",")
+	}
+	kFeeP := func(c *basev1beta1.Coin) string {
+		if c == nil || c.Amount == "" || c.Amount == "0" {
+			return "no-fee"
+		}
+		return kCoinP(c)
+	}
+	add(&c17One{name: "Params", deps: gParams | gBasket | gDenoms, args: none,
+		call: func(string) (string, error) {
+			res, err := r.base.Params(ctx, &basetypes.QueryParamsRequest{})
+			if err != nil {
+				return "", err
+			}
+			p := res.Params
+			if p == nil {
+				return "<nil>", nil
+			}
+			return kParams(p.AllowedClassCreators, p.AllowlistEnabled, kCoins(p.CreditClassFee), kCoins(p.BasketFee),
+				mapS(p.AllowedDenoms, func(x *basetypes.AllowedDenom) string { return kAD(x.BankDenom, x.DisplayDenom, x.Exponent) }),
+				p.AllowedBridgeChains), nil
+		},
+		expect: func(string) (string, bool, string) {
+			var cf, bf *basev1beta1.Coin
+			if s.ClassFee != nil {
+				cf = s.ClassFee.Fee
+			}
+			if s.BasketFee != nil {
+				bf = s.BasketFee.Fee
+			}
+			return kParams(mapS(s.AllowedCreators, func(x *baseapi.AllowedClassCreator) string { return addrStr(x.Address) }),
+				s.Allowlist != nil && s.Allowlist.Enabled, kFeeP(cf), kFeeP(bf),
+				mapS(s.AllowedDenoms, func(x *marketapi.AllowedDenom) string { return kAD(x.BankDenom, x.DisplayDenom, x.Exponent) }),
+				mapS(s.BridgeChains, func(x *baseapi.AllowedBridgeChain) string { return x.ChainName })), true, ""
 		}})
 
 	// --- basket ---
